@@ -25,11 +25,23 @@ def _in_ball(rng, centre, rmin, rmax):
     return tuple(centre[k] + r * d[k] for k in range(3))
 
 def make_case(rng, level=1, kinds=("nested", "nested", "split", "inclusions", "nonconductive"), ndip=4, nsens=6):
-    m = models.random_model(rng, level, kinds)
+    kinds = list(kinds)
+    if "isolated" in kinds and rng.random() < kinds.count("isolated") / float(len(kinds)):
+        # 4 nested spheres, shell and air both non-conductive: the outermost mesh touches zero conductivity on both sides
+        # (an *isolated* mesh, excluded from the computation, its vertices invalid unless shared), the third one is the
+        # conductive boundary.  Axis-aligned icospheres: the poles of all four meshes coincide in (x,y), in (y,z) and in (x,z).
+        def sig(): return math.exp(rng.uniform(math.log(0.05), math.log(20.0)))
+        r2 = rng.uniform(0.75, 0.9); r1 = r2 * rng.uniform(0.7, 0.92); r0 = r1 * rng.uniform(0.65, 0.9)
+        m = models.nested([r0, r1, r2, 1.0], [sig(), sig(), sig(), 0.0], level)
+        m["info"]["topology"] = "isolated"; m["info"]["radii"] = [r0, r1, r2]; m["info"]["outer_radius"] = r2
+        m["info"]["outer_mesh"] = "m2"
+    else:
+        m = models.random_model(rng, level, [k_ for k_ in kinds if k_ != "isolated"] or ["nested"])
     info = m["info"]; topo = info["topology"]; R = info["outer_radius"]
+    if topo == "isolated": topo = "nested"          # sources / sensors as for a 3-layer nested model bounded by m2
     # orientation repair: one closed mesh wound inwards in the files (Interface::is_mesh_orientations_coherent has to
     # reorient it from the solid angle at the bounding-box centre, in the original and in the moved frame alike)
-    closed = [i for i, (nm, _, _) in enumerate(m["meshes"]) if nm not in ("north", "south", "cut")]
+    closed = [i for i, (nm, _, _) in enumerate(m["meshes"]) if nm not in ("north", "south", "cut") and info["topology"] != "isolated"]
     if closed and rng.random() < 0.35:
         i = rng.choice(closed); ms = list(m["meshes"]); ms[i] = models.flip_winding(ms[i]); m["meshes"] = ms
         info["flipped_mesh"] = ms[i][0]
@@ -111,13 +123,39 @@ def make_case(rng, level=1, kinds=("nested", "nested", "split", "inclusions", "n
         eit_pos.append(tuple(sum(w[i] * tv[i][k] for i in range(3)) / sw + 0.01 * R * nrm[k] / ln for k in range(3)))
     eit_rad = [rng.choice([0.0, 0.0, 0.25 * R, 0.4 * R]) for _ in eit_pos]
     sv, st = models.icosphere(0)
+    if info["topology"] == "isolated":
+        # two zero-conductivity domains: dist_point_geom returns the weights of the LAST interface scanned with the triangle
+        # of the nearest one (C09's known finding); a harmless tie between two triangles of the conductive boundary then
+        # moves stale weights to other vertices and the EEG row changes with the frame.  Electrodes of this topology
+        # therefore project well inside a facet (no tie), like the EIT electrodes.
+        eeg = []
+        for _ in range(nsens):
+            tv = [overts[a] for a in rng.choice(otris)]
+            w = [rng.uniform(0.2, 0.6) for _ in range(3)]; sw = sum(w)
+            nrm = models.tri_normal(tv, (0, 1, 2)); ln = math.sqrt(sum(x * x for x in nrm)); off = rng.uniform(-0.02, 0.02) * R
+            eeg.append(tuple(sum(w[i] * tv[i][k] for i in range(3)) / sw + off * nrm[k] / ln for k in range(3)))
     source = (models.transform(sv, src_r, src_c), list(st)) if src_c is not None else None
+    if source is not None and rng.random() < 0.5:
+        # a flat source patch (3x3 squares, 18 triangles: many non-adjacent exactly coplanar pairs for Geometry::check /
+        # Triangle::intersects), its normal along x, y or z in the reference frame
+        axis = rng.randint(0, 2); h = 0.8 * src_r; pv = []
+        for i in range(4):
+            for j in range(4):
+                uv = (-h + 2 * h * i / 3.0, -h + 2 * h * j / 3.0); p = [0.0, 0.0, 0.0]
+                p[(axis + 1) % 3] = uv[0]; p[(axis + 2) % 3] = uv[1]
+                pv.append(tuple(src_c[k_] + p[k_] for k_ in range(3)))
+        pt = []
+        for i in range(3):
+            for j in range(3):
+                a = 4 * i + j; b = 4 * (i + 1) + j; pt += [(a, b, b + 1), (a, b + 1, a + 1)]
+        source = (pv, pt); info["flat_source_axis"] = "xyz"[axis]
     return dict(model=m, dip_pos=dip_pos, dip_mom=dip_mom, eeg=eeg, ecog=ecog, ecog_if=ecog_if, sq_pos=sq_pos, sq_ori=sq_ori, sq_w=sq_w,
                 points=points, eit_pos=eit_pos, eit_rad=eit_rad, source=source, R=R)
 
 def outer_mesh(m):
     """the mesh (name, verts, tris) carrying the outer surface (for split models without shells: the north cap)"""
     names = [x[0] for x in m["meshes"]]
+    if m["info"].get("outer_mesh") in names: return m["meshes"][names.index(m["info"]["outer_mesh"])]
     if "outer" in names: return m["meshes"][names.index("outer")]
     if m["info"].get("kind") == "split" and not any(n.startswith("shell") for n in names): return m["meshes"][names.index("north")]
     return m["meshes"][-1]
@@ -262,11 +300,10 @@ def compare_decisions(ref, new, s=1.0):
         if a.a != b.a:
             idx = [i for i, (x, y) in enumerate(zip(a.a, b.a)) if x != y]
             if name == "dec_geom" and 0 in idx:
-                # Geometry::selfCheck() is not a gain: C02/C03 quantify over gain matrices.  Its verdict flips only through
-                # Triangle::intersects on exactly coplanar non-adjacent triangles (a flat cut surface), which a rotation
-                # makes nearly coplanar - a degenerate pair for the predicate (outside C12's quantifier).  Recorded, not raised.
-                SELFCHECK_FLIPS.append((a.a[0], b.a[0])); idx.remove(0)
-                if not idx: continue
+                # Geometry::selfCheck(): om_assemble -HM refuses a model whose verdict is false, so a flip is a frame-sensitive
+                # refusal.  (It was only counted for a while: before c09's relative tolerances in Triangle::intersects the
+                # verdict flipped by rounding noise on exactly coplanar non-adjacent pairs.)  Counted AND raised.
+                SELFCHECK_FLIPS.append((a.a[0], b.a[0]))
             fails.append((name, "decision", "entries %s: %s vs %s" % (idx[:5], [a.a[i] for i in idx[:5]], [b.a[i] for i in idx[:5]])))
     a = ref.get("dec_nearest"); b = new.get("dec_nearest")
     if a is not None and b is not None and a.st == 0 and b.st == 0 and a.nl == b.nl:
@@ -593,6 +630,18 @@ def run_pairs(ck, hb, items, tol=1e-9, stats=None, what=""):
             ck.violation("%s: decision differs (%s)" % (label, ",".join(sorted({f[0] for f in dfails}))),
                          "a frame/unit-sensitive decision changes when the whole problem is transformed (s=%g k=%g): %s" % (s, k, "; ".join("%s %s" % (f[0], f[2]) for f in dfails[:4])), replay)
         if c0 is not None and (c0 > SINGULAR or (c1 is not None and c1 > SINGULAR)):
+            # gains of a singular system are not compared by value, but an exception / shape change in one frame only is
+            # a frame-sensitive outcome whatever the conditioning
+            sfails = [f for f in compare_gains(ref, r, case, s, k, tol)[0] if f[1] != "value"]
+            inv_threw = any(x.get("HeadMatInv") is not None and x["HeadMatInv"].st != 0 for x in (ref, r))
+            if inv_threw:
+                # LAPACK meets an exactly zero pivot in one frame and a 1e-17 one in the other: inverting the singular matrix
+                # throws or not by rounding; part of the singular-head-matrix known finding, not an outcome of its own
+                stats["singular_inversion_threw"] = stats.get("singular_inversion_threw", 0) + 1; sfails = []
+            if sfails:
+                rec["fails"] += sfails
+                ck.violation("%s: outcome differs between frames (%s)" % (label, ",".join(f[0] for f in sfails)),
+                             "one frame throws / drops rows where the other returns (s=%g k=%g): %s" % (s, k, "; ".join("%s %s" % (f[0], f[2]) for f in sfails[:6])), replay)
             # numerically singular head matrix (C10): the gains are not determined; the operators still have to obey their laws
             rec["singular"] = True; stats["singular"] = stats.get("singular", 0) + 1
             mv = transform_case(case, R, t, s, k)
@@ -617,7 +666,9 @@ def run_pairs(ck, hb, items, tol=1e-9, stats=None, what=""):
             if b.get("first_broken_operator"):
                 where = "; first operator off its law: %s entry %s" % (b["first_broken_operator"], b.get("entry"))
                 if b.get("kernel_replay"): where += "; kernel replay on triangles %s deviates %.2e" % (b["kernel_replay"].get("triangles", b["kernel_replay"].get("triangle")), b["kernel_replay"]["deviation"])
+            outcome = [f for f in fails if f[1] != "value"]
             ck.violation("%s: gains off the law (%s)" % (label, kinds),
+                         ("OUTCOME differs between the frames (one throws / drops rows where the other returns): %s. " % "; ".join("%s %s" % (f[0], f[2]) for f in outcome[:4]) if outcome else "") +
                          "gain(s) %s of the transformed problem (s=%g, k=%g, rotation+translation %s) deviate from s^a k^b * reference: %s%s" %
                          (kinds, s, k, "yes" if R else "no", "; ".join("%s %s" % (f[0], f[2]) for f in fails[:6]), where), replay)
     return recs
